@@ -30,6 +30,31 @@ fn pick_doc(r: &mut Rng, reference: &[RefFrame], n_committed: u64, unchunked_onl
     if docs.is_empty() { n_committed } else { docs[r.below(docs.len() as u64) as usize] }
 }
 
+/// steps of the scripted idioms (resolved against the live reference when they run)
+#[derive(Clone, Copy, Debug)]
+enum Step { UpdNOldest, UpdNAny, DelNewest, PutSmall, PutMid, Commit, Reopen, Crash }
+
+/// Idioms = short legal op sequences around the places where the writer's cached layout state is
+/// recomputed (open, replay) or where a commit adds no payload bytes (tombstone, payload-less
+/// update: the new frame shares an OLDER frame's byte range).  Random histories reach them rarely.
+fn idiom(r: &mut Rng) -> Vec<Step> {
+    use Step::*;
+    match r.below(8) {
+        0 => vec![UpdNOldest, Commit, Reopen, DelNewest, Commit],
+        1 => vec![UpdNOldest, Commit, Crash, UpdNAny, Commit],
+        2 => vec![DelNewest, PutSmall, Commit],
+        3 => vec![UpdNAny, UpdNAny, Commit, Reopen, PutSmall, Commit],
+        4 => vec![PutMid, Crash, DelNewest, Commit, Reopen],
+        5 => vec![UpdNOldest, DelNewest, Commit, Reopen, UpdNAny, Commit],
+        6 => vec![UpdNOldest, Commit, Reopen, PutMid, Commit, Reopen, DelNewest, Commit],
+        _ => vec![DelNewest, Commit, Reopen, UpdNOldest, Commit, Crash, DelNewest, Commit],
+    }
+}
+
+fn active_plain_docs(reference: &[RefFrame], n_committed: u64) -> Vec<u64> {
+    (0..n_committed.min(reference.len() as u64)).filter(|i| { let f = &reference[*i as usize]; f.role == 0 && f.status == 0 && !f.chunked }).collect()
+}
+
 pub struct History { pub ops_terms: Vec<T>, pub outs: Vec<T>, pub violation: Option<String>, pub tags: Vec<String>, pub final_table: T, pub nontrivial: bool }
 
 /// run one adaptive history; `plan` decides op kinds, sizes are aimed using live WAL stats
@@ -42,11 +67,33 @@ pub fn run_history(r: &mut Rng, nops: usize, profile: u64, maintenance: bool) ->
     let mut uri_counter = 0u32;
     let mut autos = 0; let mut grows = 0; let mut crossed_edge = 0;
     let mut final_table = T::L(vec![]);
+    let mut script: std::collections::VecDeque<Step> = std::collections::VecDeque::new();
+    let mut idioms = 0;
     for i in 0..nops {
         let (region, pending, _, _) = memvid_core::verif_hooks::wal_stats(d.mem());
         let c = r.below(100);
         let n_committed = d.mem().frame_count() as u64;
+        if script.is_empty() && i >= 3 && i + 9 < nops && active_plain_docs(&reference, n_committed).len() >= 2 && r.chance(1, 5) {
+            script.extend(idiom(r)); idioms += 1;
+        }
+        let scripted: Option<Op> = match script.pop_front() {
+            None => None,
+            Some(st) => {
+                let docs = active_plain_docs(&reference, n_committed);
+                Some(match st {
+                    Step::UpdNOldest if !docs.is_empty() => Op::Update { target: docs[0], payload: None, uri: None },
+                    Step::UpdNAny if !docs.is_empty() => Op::Update { target: docs[r.below(docs.len() as u64) as usize], payload: None, uri: None },
+                    Step::DelNewest if !docs.is_empty() => Op::Delete { target: *docs.last().unwrap() },
+                    Step::PutSmall => Op::Put { kind: PayloadKind::Bin, size: r.range(1, 200) as usize, uri: None, ts: 1_700_000_000 + i as i64, embed: None, default_opts: false },
+                    Step::PutMid => Op::Put { kind: PayloadKind::Bin, size: r.range(500, 3000) as usize, uri: None, ts: 1_700_000_000 + i as i64, embed: None, default_opts: false },
+                    Step::Reopen => Op::Reopen,
+                    Step::Crash => Op::Crash,
+                    _ => Op::Commit,
+                })
+            }
+        };
         let op = if i + 1 == nops { Op::Commit }
+        else if let Some(o) = scripted { o }
         else if c < 62 || n_committed == 0 && c < 80 {
             let room = region as i64 - pending as i64;
             let size: usize = match (profile, r.below(10)) {
@@ -142,6 +189,7 @@ pub fn run_history(r: &mut Rng, nops: usize, profile: u64, maintenance: bool) ->
         }
     }
     let _ = committed_len;
+    if idioms > 0 { tags.push("idiom".into()); }
     if autos > 0 { tags.push("autocheckpoint".into()); }
     if grows > 0 { tags.push("walgrowth".into()); }
     if crossed_edge > 0 { tags.push("ended_within_48_of_region_end".into()); }
